@@ -476,8 +476,19 @@ class ConnectionPool(Entity):
 
     def _handle_warmup(self, event: Event) -> Generator[float, None, list[Event] | None]:
         """Create minimum connections."""
-        while self._total_connections < self._min_connections:
+        # Set-ups already in flight (started by clients) count towards the minimum,
+        # otherwise the pool could end up owning more than max_connections.
+        while self._total_connections + self._pending_connections < self._min_connections:
             connection = yield from self._create_connection()
+
+            if self._waiters:
+                # A client queued while the warm-up held the slot: hand the new
+                # connection over instead of leaving it idle next to a waiter.
+                _waiter_id, _request_time, callback = self._waiters.popleft()
+                self._activate_connection(connection)
+                callback(connection)
+                continue
+
             self._idle_connections.append(connection)
 
             # Schedule idle timeout check
